@@ -12,7 +12,7 @@ from .common import Driver
 from .filegen import ydm_to_ms
 
 THEOREM_MODULES = ["PygacModel.Theorems.C05"]
-RULE = ("calibrate_thermal for all 17 spacecraft x channels 3b/4/5 on generated passes: lengths 6..52..400 (thorough 3000), "
+RULE = ("calibrate_thermal for all 17 spacecraft x channels 3b/4/5 on generated passes: lengths 6..52..400 (thorough 1500), "
         "first line numbers 1..5 and arbitrary (all PRT-cycle phases), line-number gaps, isolated invalid PRT / internal-"
         "target / space readings, reset markers 0..49, scene counts 0..1023 (16 per line quick, all 1024 thorough on "
         "selected lines); compared with the Lean model (discrete part exact, radiometric part in Float, 1e-6 K, guard band "
@@ -136,7 +136,7 @@ def oracle(sat_tab, chan, nums, prt, ict, space, counts):
 
 
 def gen_pass(rng, thorough):
-    n = rng.choice([6, 7, 10, 23, 50, 51, 52, 53, 120, 400] + ([1500, 3000] if thorough else []))
+    n = rng.choice([6, 7, 10, 23, 50, 51, 52, 53, 120, 400] + ([1500] if thorough else []))
     n0 = rng.choice([1, 2, 3, 4, 5, 1, 17, 1234])
     nums, cur = [], n0
     gaps = rng.random() < 0.4
@@ -224,7 +224,7 @@ def direct_cases(ctx, tab):
     rng = ctx.rng
     sats = sorted(tab)
     lines, pend = [], []
-    ncase = ctx.n(120, 1200)
+    ncase = ctx.n(150, 600)
     for k in range(ncase):
         sat = sats[k % len(sats)]
         chan = 3 + (k // len(sats)) % 3
